@@ -48,12 +48,149 @@ func isCmpOp(op token.Token) bool {
 
 // operandCmp is a comparison between a left-derived and a right-derived value.
 type operandCmp struct {
-	Bo     *ssa.BinOp
-	Op     token.Token // normalised to "left op right"
-	Kind   string      // operand type compared: float / string / bool
-	Guards string      // which dynamic operand types guard it, e.g. "L:NodeSet R:Number"
+	Unit   *cmpUnit
+	V      ssa.Value       // the comparison: a BinOp, or the call of a comparator function bound to a function parameter
+	In     ssa.Instruction // the same, as an instruction
+	X, Y   ssa.Value       // its operands
+	Op     token.Token     // normalised to "left op right"
+	Kind   string          // operand type compared: float / string / bool
+	Guards string          // which dynamic operand types guard it, e.g. "L:NodeSet R:Number"
 	InLoop bool
 }
+
+// cmpUnit is a function in which the operands of a comparison production are compared: the handler itself (which
+// stores the answer into the context) or a helper of the package that is given the two operands and returns the answer
+// (the handler, or the unit that calls it, stores or returns that in turn).
+type cmpUnit struct {
+	Fn          *ssa.Function
+	Left, Right ssa.Value
+	ResultIdx   int       // -1: the answer is stored into the context result; k: result k of Fn is the answer
+	OkIdx       int       // index of a second boolean result meaning "handled" (-1: none)
+	CallGuards  string    // operand-type guards that hold where the unit is called
+	Call        *ssa.Call // the call in the parent unit
+	Delivered   bool      // the answer flows into the caller's answer
+}
+
+// comparisonUnits: the handler and, recursively, the helpers that receive both operands.
+func (w *World) comparisonUnits(h *ssa.Function, left, right ssa.Value) []*cmpUnit {
+	root := &cmpUnit{Fn: h, Left: left, Right: right, ResultIdx: -1, OkIdx: -1}
+	units := []*cmpUnit{root}
+	seen := map[*ssa.Function]bool{h: true}
+	for i := 0; i < len(units) && i < 8; i++ {
+		u := units[i]
+		allInstrs(u.Fn, func(in ssa.Instruction) {
+			c, ok := in.(*ssa.Call)
+			if !ok {
+				return
+			}
+			g := staticCallee(c)
+			if g == nil || fnPkgKey(g) != "exec" || seen[g] || len(g.Blocks) == 0 {
+				return
+			}
+			li, ri := -1, -1
+			for k, a := range c.Call.Args {
+				if a == u.Left {
+					li = k
+				}
+				if a == u.Right {
+					ri = k
+				}
+			}
+			if li < 0 || ri < 0 || li >= len(g.Params) || ri >= len(g.Params) {
+				return
+			}
+			res := g.Signature.Results()
+			ridx, okidx := -1, -1
+			for k := 0; k < res.Len(); k++ {
+				if n, isN := types.Unalias(res.At(k).Type()).(*types.Named); isN && n.Obj().Name() == "Bool" && ridx < 0 {
+					ridx = k
+				} else if b, isB := res.At(k).Type().Underlying().(*types.Basic); isB && b.Kind() == types.Bool {
+					if _, named := types.Unalias(res.At(k).Type()).(*types.Named); !named {
+						okidx = k
+					} else if ridx < 0 {
+						ridx = k
+					}
+				}
+			}
+			if ridx < 0 {
+				return
+			}
+			seen[g] = true
+			cg := typeGuards(c.Block(), u.Left, u.Right)
+			if u.CallGuards != "" {
+				cg = strings.TrimSpace(u.CallGuards + " " + cg)
+			}
+			nu := &cmpUnit{Fn: g, Left: g.Params[li], Right: g.Params[ri], ResultIdx: ridx, OkIdx: okidx, CallGuards: cg, Call: c}
+			// the answer the helper hands back is what the caller stores (or hands back in turn)
+			var start ssa.Value = c
+			if res.Len() > 1 {
+				start = nil
+				for _, rr := range referrers(c) {
+					if ex, ok := rr.(*ssa.Extract); ok && ex.Index == ridx {
+						start = ex
+					}
+				}
+			}
+			if start != nil {
+				seenV := map[ssa.Value]bool{}
+				var flows func(v ssa.Value, d int)
+				flows = func(v ssa.Value, d int) {
+					if seenV[v] || d > 6 {
+						return
+					}
+					seenV[v] = true
+					for _, rr := range referrers(v) {
+						switch x := rr.(type) {
+						case *ssa.Phi:
+							flows(x, d+1)
+						case *ssa.ChangeType:
+							flows(x, d+1)
+						case *ssa.MakeInterface:
+							flows(x, d+1)
+						case *ssa.Store:
+							if fa, ok := x.Addr.(*ssa.FieldAddr); ok && u.ResultIdx < 0 && x.Val == v {
+								if pt, ok := fa.X.Type().Underlying().(*types.Pointer); ok {
+									if st, ok := pt.Elem().Underlying().(*types.Struct); ok && fa.Field < st.NumFields() && st.Field(fa.Field).Name() != "" {
+										nu.Delivered = true
+									}
+								}
+							}
+						case *ssa.Return:
+							if u.ResultIdx >= 0 && u.ResultIdx < len(x.Results) && x.Results[u.ResultIdx] == v {
+								nu.Delivered = true
+							}
+						}
+					}
+				}
+				flows(start, 0)
+			}
+			units = append(units, nu)
+		})
+	}
+	return units
+}
+
+// allOperandComparisons: the comparisons of every unit.
+func (w *World) allOperandComparisons(h *ssa.Function, left, right ssa.Value) []operandCmp {
+	var out []operandCmp
+	for _, u := range w.comparisonUnits(h, left, right) {
+		for _, c := range w.operandComparisons(u.Fn, u.Left, u.Right) {
+			c.Unit = u
+			if u.CallGuards != "" {
+				c.Guards = strings.TrimSpace(c.Guards + " " + u.CallGuards)
+				fs := strings.Fields(c.Guards)
+				sort.Strings(fs)
+				c.Guards = strings.Join(fs, " ")
+			}
+			out = append(out, c)
+		}
+	}
+	return out
+}
+
+// cmpBind resolves a function-typed parameter or free variable of the function under analysis to the function it was
+// bound to for the handler being checked (set by checkC05 per handler; nil when there are no such bindings).
+var cmpBind func(ssa.Value) *ssa.Function
 
 func (w *World) operandComparisons(h *ssa.Function, left, right ssa.Value) []operandCmp {
 	var out []operandCmp
@@ -72,23 +209,45 @@ func (w *World) operandComparisons(h *ssa.Function, left, right ssa.Value) []ope
 		g := g
 		inLoop := loopBlocks(g)
 		allInstrs(g, func(in ssa.Instruction) {
-			bo, ok := in.(*ssa.BinOp)
-			if !ok || !isCmpOp(bo.Op) {
+			var cv, cx, cy ssa.Value
+			var cop token.Token
+			switch x := in.(type) {
+			case *ssa.BinOp:
+				if !isCmpOp(x.Op) {
+					return
+				}
+				cv, cx, cy, cop = x, x.X, x.Y, x.Op
+			case *ssa.Call:
+				// the operator handed in as a function value (`cmp(l, r)` with cmp bound to
+				// func(l, r float64) bool { return l < r })
+				if staticCallee(x) != nil || x.Call.IsInvoke() || len(x.Call.Args) != 2 || cmpBind == nil {
+					return
+				}
+				fb := cmpBind(x.Call.Value)
+				bop, swapped, isCmp := smallBinOp(fb)
+				if !isCmp || !isCmpOp(bop) {
+					return
+				}
+				cv, cx, cy, cop = x, x.Call.Args[0], x.Call.Args[1], bop
+				if swapped {
+					cx, cy = cy, cx
+				}
+			default:
 				return
 			}
-			xl, xr := sides(bo.X, left, right)
-			yl, yr := sides(bo.Y, left, right)
+			xl, xr := sides(cx, left, right)
+			yl, yr := sides(cy, left, right)
 			var op token.Token
 			switch {
 			case xl && !xr && yr && !yl:
-				op = bo.Op
+				op = cop
 			case xr && !xl && yl && !yr:
-				op = swapOp(bo.Op)
+				op = swapOp(cop)
 			default:
 				return
 			}
 			kind := "other"
-			if b, ok := bo.X.Type().Underlying().(*types.Basic); ok {
+			if b, ok := cx.Type().Underlying().(*types.Basic); ok {
 				switch {
 				case b.Info()&types.IsFloat != 0:
 					kind = "float"
@@ -98,14 +257,14 @@ func (w *World) operandComparisons(h *ssa.Function, left, right ssa.Value) []ope
 					kind = "bool"
 				}
 			}
-			guards := typeGuards(bo.Block(), left, right)
-		if g != h {
-			// a comparison inside a function literal: what is known where the literal is handed to its helper
-			if site := closureUseSite(g); site != nil {
-				guards = strings.TrimSpace(guards + " " + typeGuards(site.Block(), left, right))
+			guards := typeGuards(in.Block(), left, right)
+			if g != h {
+				// a comparison inside a function literal: what is known where the literal is handed to its helper
+				if site := closureUseSite(g); site != nil {
+					guards = strings.TrimSpace(guards + " " + typeGuards(site.Block(), left, right))
+				}
 			}
-		}
-		out = append(out, operandCmp{Bo: bo, Op: op, Kind: kind, Guards: guards, InLoop: inLoop[bo.Block()] || g != h})
+			out = append(out, operandCmp{V: cv, In: in, X: cx, Y: cy, Op: op, Kind: kind, Guards: guards, InLoop: inLoop[in.Block()] || g != h})
 		})
 	}
 	return out
@@ -218,25 +377,32 @@ func checkC05(w *World) {
 			w.check(P, "R05.1", "production of "+nt, 0, false, fmt.Sprintf("grammar terminal is %q, expected %q", gsym, sym))
 			continue
 		}
+		hh := h
+		cmpBind = func(v ssa.Value) *ssa.Function { return hh.boundFunc(v) }
 		left, right, ph, why := w.operandsOf(h.Fn)
 		if why != "" {
 			w.undecided(P, "R05.0", "operands of "+nt, h.Fn.Pos(), why)
 			continue
 		}
 		w.check(P, "R05.0", "operands of "+nt, h.Fn.Pos(), ph.Independent && !ph.Numeric, fmt.Sprintf("helper %s: independent copies: %v; result %d = child 0, result %d = child 1", ph.Fn.Name(), ph.Independent, ph.LeftResult, ph.RightResult))
-		cmps := w.operandComparisons(h.Fn, left, right)
+		cmps := w.allOperandComparisons(h.Fn, left, right)
+		for _, u := range w.comparisonUnits(h.Fn, left, right) {
+			if u.Call != nil {
+				w.check(P, "R05.3", fmt.Sprintf("%s: answer of %s", nt, u.Fn.Name()), u.Call.Pos(), u.Delivered, fmt.Sprintf("the boolean the comparison helper hands back becomes the result of the comparison: %v", u.Delivered))
+			}
+		}
 		want := goOpOf[sym]
 		relational := sym != "=" && sym != "!="
 		var arms []string
 		for i, c := range cmps {
 			cons := fmt.Sprintf("%s: comparison #%d [%s]", nt, i+1, positiveGuards(c.Guards))
-			w.check(P, "R05.1", cons, c.Bo.Pos(), c.Op == want, fmt.Sprintf("Go operator (left-to-right normalised) is %s, the production's operator is %s", c.Op, sym))
+			w.check(P, "R05.1", cons, c.In.Pos(), c.Op == want, fmt.Sprintf("Go operator (left-to-right normalised) is %s, the production's operator is %s", c.Op, sym))
 			if relational {
-				w.check(P, "R05.2", cons, c.Bo.Pos(), c.Kind == "float", "operands compared as "+c.Kind)
+				w.check(P, "R05.2", cons, c.In.Pos(), c.Kind == "float", "operands compared as "+c.Kind)
 			}
 			// R05.3
 			ok3, why3 := w.existentialShape(c, r)
-			w.check(P, "R05.3", cons, c.Bo.Pos(), ok3, why3)
+			w.check(P, "R05.3", cons, c.In.Pos(), ok3, why3)
 			arms = append(arms, positiveGuards(c.Guards)+"/"+c.Kind)
 		}
 		// constant results are stored only inside node-set arms; node-set arms compare node by node
@@ -265,8 +431,8 @@ func checkC05(w *World) {
 		for i, c := range cmps {
 			pg := positiveGuards(c.Guards)
 			if strings.Contains(pg, "NodeSet") && !strings.Contains(pg, "Bool") {
-				perNode := c.InLoop && (derivesFromLoopElement(c.Bo.X) || derivesFromLoopElement(c.Bo.Y))
-				w.check(P, "R05.3", fmt.Sprintf("%s: comparison #%d [%s] is made per node", nt, i+1, pg), c.Bo.Pos(), perNode, fmt.Sprintf("the comparison sits inside the loop over the node-set and compares that loop's node: %v (summaries such as min/max of the set lose NaN and non-numeric nodes)", perNode))
+				perNode := c.InLoop && (derivesFromLoopElement(c.X) || derivesFromLoopElement(c.Y))
+				w.check(P, "R05.3", fmt.Sprintf("%s: comparison #%d [%s] is made per node", nt, i+1, pg), c.In.Pos(), perNode, fmt.Sprintf("the comparison sits inside the loop over the node-set and compares that loop's node: %v (summaries such as min/max of the set lose NaN and non-numeric nodes)", perNode))
 			}
 		}
 		sort.Strings(arms)
@@ -289,8 +455,8 @@ func checkC05(w *World) {
 		for _, c := range cmps {
 			pg := positiveGuards(c.Guards)
 			if pg == "L:Bool R:NodeSet" || pg == "L:NodeSet R:Bool" {
-				usesBool := sliceContains(c.Bo.X, isBoolCall) || sliceContains(c.Bo.Y, isBoolCall)
-				w.check(P, "R05.4", nt+": node-set x boolean arm "+pg, c.Bo.Pos(), usesBool, fmt.Sprintf("the node-set is converted with Bool(): %v", usesBool))
+				usesBool := sliceContains(c.X, isBoolCall) || sliceContains(c.Y, isBoolCall)
+				w.check(P, "R05.4", nt+": node-set x boolean arm "+pg, c.In.Pos(), usesBool, fmt.Sprintf("the node-set is converted with Bool(): %v", usesBool))
 			}
 		}
 		if !relational {
@@ -336,13 +502,13 @@ func isBoolCall(v ssa.Value) bool {
 
 // existentialShape checks the use of one operand comparison.
 func (w *World) existentialShape(c operandCmp, r *Roles) (bool, string) {
-	refs := referrers(c.Bo)
+	refs := referrers(c.V)
 	// the comparison is the value a function literal returns, and the literal is the predicate of an existential
 	// helper (`result = anyNode(set, func(n) bool { return a == f(n) })`) whose value is stored as the result
-	if lit := c.Bo.Parent(); lit.Parent() != nil {
+	if lit := c.In.Parent(); lit.Parent() != nil {
 		returned := false
 		for _, rr := range refs {
-			if ret, ok := rr.(*ssa.Return); ok && len(ret.Results) == 1 && ret.Results[0] == ssa.Value(c.Bo) {
+			if ret, ok := rr.(*ssa.Return); ok && len(ret.Results) == 1 && ret.Results[0] == c.V {
 				returned = true
 			}
 		}
@@ -378,6 +544,10 @@ func (w *World) existentialShape(c operandCmp, r *Roles) (bool, string) {
 			return false, "the function literal that makes the comparison is not handed to an existential helper (true on the first match, false after the loop)"
 		}
 	}
+	ridx := -1
+	if c.Unit != nil {
+		ridx = c.Unit.ResultIdx
+	}
 	if c.InLoop {
 		if len(refs) != 1 {
 			return false, "in-loop comparison is not used as exactly one branch condition"
@@ -396,8 +566,14 @@ func (w *World) existentialShape(c operandCmp, r *Roles) (bool, string) {
 					}
 				}
 			}
-			if _, ok := in.(*ssa.Return); ok {
+			if ret, ok := in.(*ssa.Return); ok {
 				returns = true
+				// a helper that returns the answer: the constant true is what it hands back
+				if ridx >= 0 && ridx < len(ret.Results) {
+					if cst, ok := stripConv(ret.Results[ridx]).(*ssa.Const); ok && cst.Value != nil && cst.Value.Kind() == constant.Bool && constant.BoolVal(cst.Value) {
+						storesTrue = true
+					}
+				}
 			}
 		}
 		if !storesTrue || !returns {
@@ -442,16 +618,20 @@ func (w *World) existentialShape(c operandCmp, r *Roles) (bool, string) {
 					if fa, ok := x.Addr.(*ssa.FieldAddr); ok && fa.Field == r.CtxResultField && x.Val == v {
 						return true
 					}
+				case *ssa.Return:
+					if ridx >= 0 && ridx < len(x.Results) && x.Results[ridx] == v {
+						return true
+					}
 				}
 			}
 			return false
 		}
-		if flows(c.Bo, 0) {
-			return true, "the comparison value is stored as the result"
+		if flows(c.V, 0) {
+			return true, "the comparison value is stored (or handed back) as the result"
 		}
 	}
 	for _, rr := range refs {
-		v := ssa.Value(c.Bo)
+		v := c.V
 		if ct, ok := rr.(*ssa.ChangeType); ok {
 			v = ct
 			for _, r2 := range referrers(ct) {
@@ -475,8 +655,8 @@ func (w *World) existentialShape(c operandCmp, r *Roles) (bool, string) {
 func (w *World) scalarPriority(P, nt string, h *ssa.Function, cmps []operandCmp, left, right ssa.Value) {
 	for _, c := range cmps {
 		// fallback comparisons: both operands are direct method calls on the operand interface values
-		rx, mx := directMethod(c.Bo.X)
-		ry, my := directMethod(c.Bo.Y)
+		rx, mx := directMethod(c.X)
+		ry, my := directMethod(c.Y)
 		if mx == "" || mx != my {
 			continue
 		}
@@ -489,13 +669,13 @@ func (w *World) scalarPriority(P, nt string, h *ssa.Function, cmps []operandCmp,
 		case "Bool":
 			// reached only if some operand is Bool: i.e. NOT both (L:!Bool and R:!Bool)
 			ok := !(has("L:!Bool") && has("R:!Bool"))
-			w.check(P, "R05.4", nt+": boolean fallback comparison", c.Bo.Pos(), ok, "guards: "+c.Guards)
+			w.check(P, "R05.4", nt+": boolean fallback comparison", c.In.Pos(), ok, "guards: "+c.Guards)
 		case "Number":
 			ok := has("L:!Bool") && has("R:!Bool") && !(has("L:!Number") && has("R:!Number"))
-			w.check(P, "R05.4", nt+": number fallback comparison", c.Bo.Pos(), ok, "must be reached only when neither operand is a boolean and one is a number; guards: "+c.Guards)
+			w.check(P, "R05.4", nt+": number fallback comparison", c.In.Pos(), ok, "must be reached only when neither operand is a boolean and one is a number; guards: "+c.Guards)
 		case "String":
 			ok := has("L:!Bool") && has("R:!Bool") && has("L:!Number") && has("R:!Number")
-			w.check(P, "R05.4", nt+": string fallback comparison", c.Bo.Pos(), ok, "must be reached only when neither operand is a boolean or a number; guards: "+c.Guards)
+			w.check(P, "R05.4", nt+": string fallback comparison", c.In.Pos(), ok, "must be reached only when neither operand is a boolean or a number; guards: "+c.Guards)
 		}
 	}
 }
